@@ -401,10 +401,13 @@ def step(ctx, rng, t, m, log):
         if suffix and m.plain.endswith(suffix):
             m.crop_to(n - len(suffix))
     elif op == "copy":
-        how = rng.choice(["Text.copy", "Text.copy", "copy.deepcopy", "pickle"])
+        how = rng.choice(["Text.copy", "Text.copy", "copy.deepcopy", "pickle", "copy.copy"])
         log.append([op, how])
         if how == "Text.copy":
             t = t.copy()
+        elif how == "copy.copy":
+            import copy as _copy
+            t = _copy.copy(t)
         elif how == "copy.deepcopy":
             import copy as _copy
             t = _copy.deepcopy(t)
